@@ -95,6 +95,30 @@ def select(fn, sel):
             if isinstance(st, ast.If) and len(st.body) == 1 and len(st.orelse) == 1 and \
                     all(isinstance(b, ast.Assign) and ast.unparse(b.targets[0]) == target for b in (st.body[0], st.orelse[0])):
                 hits.append(("ite", st.test, st.body[0].value, st.orelse[0].value))
+    elif kind == "ifnest":              # k-th `if` whose (nested) arms assign to `target` or `pass`: ("ite", test, a, b) tree
+        _, target, k = sel
+
+        def arm(body):
+            if len(body) == 1 and isinstance(body[0], ast.Pass):
+                return ast.Name(id=target, ctx=ast.Load())
+            if len(body) == 1 and isinstance(body[0], ast.Assign) and ast.unparse(body[0].targets[0]) == target:
+                return body[0].value
+            if len(body) == 1 and isinstance(body[0], ast.If):
+                return tree(body[0])
+            raise Untranslatable("arm %r is neither `pass`, an assignment to %s nor a nested if" % (
+                "; ".join(ast.unparse(b) for b in body)[:80], target))
+
+        def tree(node):
+            return ("ite", node.test, arm(node.body), arm(node.orelse) if node.orelse else ast.Name(id=target, ctx=ast.Load()))
+        hits = []
+        for st in fn.body:              # top-level statements of the function only
+            if isinstance(st, ast.If):
+                try:
+                    hits.append(tree(st))
+                except Untranslatable:
+                    hits.append(None)
+        if k < len(hits) and hits[k] is None:
+            raise Untranslatable("selector %r: the statement is not a nest of if / else assigning to %s" % (sel, target))
     elif kind == "ifchain":             # k-th `if` statement with its elif / else arms: [(test | None, [appended items])]
         _, k = sel
         ifs = [st for st in sts if isinstance(st, ast.If)]
@@ -285,6 +309,23 @@ SPECS += [
     ("rnc_cut", ["C03", "C15"], RNC, "RankAndCrowding._do", ("slice_upper", "I", 0), {"n_remove": "k"},
      "(k : Int) : {e} = -k", "rfl"),
 ]
+CLAMP_VM = {"N": "(n : Int)", "M": "(m : Int)", "n_remove": "nr"}
+for path_, fn_ in (("pymoode/misc/mnn.py", "calc_mnn"), ("pymoode/misc/pruning_cd.py", "calc_pcd")):
+    tag_ = fn_.split("_")[1]
+    SPECS += [
+        ("clamp_%s" % tag_, ["C13", "C14"], path_, fn_, ("ifnest", "n_remove", 0), CLAMP_VM,
+         "(nr : Int) (n m : Nat) : clampRemove nr n m = {e}", "by simp [clampRemove]"),
+        ("clamp_%s_N" % tag_, ["C13", "C14"], path_, fn_, ("assign", "N", 0), {"X.shape[0]": "n"},
+         "(n : Nat) : {e} = n", "rfl"),
+        ("clamp_%s_M" % tag_, ["C13", "C14"], path_, fn_, ("assign", "M", 0), {"X.shape[1]": "nObj"},
+         "(nObj : Nat) : {e} = nObj", "rfl"),
+    ]
+SPECS += [
+    ("mnn_neighbours", ["C13", "C14"], "pymoode/misc/mnn.py", "calc_mnn", ("assign", "M", 1), {},
+     "(nObj : Nat) (twonn : Bool) : (if twonn then {e} else nObj) = (if twonn then 2 else nObj)", "rfl"),
+    ("mnn_short_front", ["C13", "C14"], "pymoode/misc/mnn.py", "calc_mnn", ("if", 3), {"N": "n", "M": "mNb"},
+     "(n mNb : Nat) : {e} = decide (n ≤ mNb)", "rfl"),
+]
 # extra selections needed by multi-term statements: name -> [(placeholder, selector, vm)]
 EXTRA = {
     "rnc_front_loop": [("e1", ("assign", "n_remove", 0), RNC_VM)],
@@ -299,6 +340,7 @@ import PymoodeModel.Replacement
 import PymoodeModel.Selection
 import PymoodeModel.Algo
 import PymoodeModel.RankCrowd
+import PymoodeModel.Metrics.Prune
 import Mathlib.Algebra.Order.Field.Basic
 set_option linter.unusedVariables false
 set_option linter.unusedSimpArgs false
